@@ -104,6 +104,8 @@ case_strategy = st.one_of(
     st.tuples(st.just("table"), schemes.schemes(allow_full=True, max_datasets=3)),
     st.tuples(st.just("table"), schemes.schemes(allow_full=False, max_datasets=2).map(_with_expr)),
     st.tuples(st.just("kinetic"), kinetic.kinetic_cases(max_datasets=2)),
+    # the same kinetic schemes on a time axis in other units: parameters of magnitude 1e-8 .. 1e5 instead of O(1)
+    st.tuples(st.just("kinetic"), st.builds(kinetic.rescale_time, kinetic.kinetic_cases(max_datasets=2, extras_allowed=False), st.sampled_from([1e6, 1e3, 1e-3]))),
 )
 
 
@@ -166,6 +168,33 @@ class Interp:
                 with expect_ok("history.reevaluation_of_a_good_vector_raises"):
                     v1 = self.cap(x)  # x was evaluated without error before: it must evaluate again
                 self._compare(x, v0, v1, "history.value_depends_on_history")
+            elif name == "near":
+                # a vector next to one already evaluated (one coordinate moved by a relative step far above round-off): evaluated
+                # right after its neighbour, it must give what a fresh optimizer gives for it
+                x0_, _ = self.seen[op[1] % len(self.seen)]
+                if x0_.size == 0:
+                    return
+                x = x0_.copy()
+                j = op[2] % x.size
+                x[j] = x[j] * (1.0 + op[3]) if x[j] != 0 else op[3]
+                with expect_ok("history.reevaluation_of_a_good_vector_raises"):
+                    self.cap(x0_)
+                try:
+                    v1 = self.cap(x)
+                except Exception:  # noqa: BLE001
+                    self.flags.add("raised")
+                    return
+                if not np.all(np.isfinite(v1)):
+                    return
+                with expect_ok("fresh.setup"):
+                    cap2 = capture.open_objective(build_scheme(self.kind, self.case, add_svd=False))
+                with expect_ok("fresh.evaluation_of_a_good_vector_raises"):
+                    v2 = cap2(x)
+                self._compare(x, v2, v1, "history.value_at_a_neighbouring_vector_depends_on_history")
+                self.record(x, v1)
+                self.flags.add("near")
+                if self.case.get("time_unit"):
+                    self.flags.add("near_rescaled_time_unit")
             elif name == "raise":
                 x = self.x0.copy()
                 if x.size == 0:
@@ -281,6 +310,10 @@ class ObjectiveMachine(RuleBasedStateMachine):
     @rule(i=st.integers(0, 7), f=st.sampled_from([1e4, 1e6, 1e8, -1e3, 1e-8]))
     def eval_bad(self, i, f):
         self._do(["bad", i, f])
+
+    @rule(i=st.integers(0, 30), j=st.integers(0, 7), r=st.sampled_from([1e-6, -1e-6, 1e-8, 1e-10]))
+    def near(self, i, j, r):
+        self._do(["near", i, j, r])
 
     @rule(i=st.integers(0, 30))
     def fresh(self, i):
